@@ -12,6 +12,7 @@ import (
 	"encoding/hex"
 	"fmt"
 	"math/rand"
+	"os"
 	"runtime"
 	"sort"
 	"strings"
@@ -359,6 +360,36 @@ func TestVerifSmt(t *testing.T) {
 
 	rootOf := map[string]string{} // concrete contents digest -> root (history independence across the whole run)
 	var rootMu sync.Mutex
+	var traceMu sync.Mutex
+	var traceBuf bytes.Buffer
+	absDepth := func(pos []int, d int) int { // number of family positions below the concrete depth
+		n := 0
+		for _, p := range pos {
+			if p < d {
+				n++
+			}
+		}
+		return n
+	}
+	bitsOf := func(k string) string {
+		out := make([]string, len(k))
+		for i, c := range k {
+			out[i] = string(c)
+		}
+		return "[" + strings.Join(out, ",") + "]"
+	}
+	pairs := func(m map[string]string) string {
+		ks := make([]string, 0, len(m))
+		for k := range m {
+			ks = append(ks, k)
+		}
+		sort.Strings(ks)
+		out := make([]string, len(ks))
+		for i, k := range ks {
+			out[i] = fmt.Sprintf(`{"k":%s,"v":"%s"}`, bitsOf(k), m[k])
+		}
+		return "[" + strings.Join(out, ",") + "]"
+	}
 	var wg sync.WaitGroup
 	sem := make(chan struct{}, runtime.NumCPU())
 
@@ -454,7 +485,9 @@ func TestVerifSmt(t *testing.T) {
 			}
 
 			// ---- part 2: long walks on ONE long-lived instance, every historical root re-read at the end
+			var fam bytes.Buffer
 			for wi, walk := range in.Walks {
+				fmt.Fprintf(&fam, "{\"ev\":\"Reset\",\"newfam\":%v}\n", wi == 0)
 				store := newStore()
 				tr := NewTrie(nil, vhash, store)
 				if wi%2 == 1 {
@@ -486,6 +519,24 @@ func TestVerifSmt(t *testing.T) {
 					}
 					hist = append(hist, hr{append([]byte(nil), tr.Root...), e.Dst})
 					histAbs = append(histAbs, e.Dst)
+					// trace event: what was READ BACK from the real trie (contents, proof depths, root)
+					reads := map[string]string{}
+					var depths []string
+					for _, ak := range in.Keys {
+						got, _ := tr.Get(f.key(ak))
+						for _, av := range []string{"v1", "v2"} {
+							if bytes.Equal(got, cval(av)) {
+								reads[ak] = av
+							}
+						}
+						if got != nil {
+							ap, _, _, _, _ := tr.MerkleProof(f.key(ak))
+							depths = append(depths, fmt.Sprintf(`{"k":%s,"v":%d}`, bitsOf(ak), absDepth(pos, len(ap))))
+						}
+					}
+					// the root id is qualified by the family: contents are compared per family
+					fmt.Fprintf(&fam, `{"ev":"Batch","upd":%s,"reads":%s,"depth":[%s],"root":"%d:%x"}`+"\n",
+						pairs(e.Upd), pairs(reads), strings.Join(depths, ","), fi, tr.Root)
 				}
 				if !ok {
 					continue
@@ -499,9 +550,17 @@ func TestVerifSmt(t *testing.T) {
 					}
 				}
 			}
+			traceMu.Lock()
+			traceBuf.Write(fam.Bytes())
+			traceMu.Unlock()
 		}()
 	}
 	wg.Wait()
+	if tp := os.Getenv("VERIF_TRACE"); tp != "" {
+		if err := os.WriteFile(tp, traceBuf.Bytes(), 0o644); err != nil {
+			t.Fatal(err)
+		}
+	}
 
 	// ---- part 3: randomised large batches (parallel subtree updates), GOMAXPROCS 1 and all
 	if in.RandomOps > 0 {
